@@ -371,11 +371,17 @@ theorem LoopWindow.cap {src : List Event} {p q L : Nat} (h : LoopWindow src p q 
   · rw [h1]; exact h
   · rw [h1]; exact h.shorten hpq (Nat.le_of_lt h2)
 
+/-- the stack test of the loop candidate (`find_match`, repair of D18) on the event at index `i` of
+the source track: the stack list has an entry and entry + base usage is below `max_loop_stack` -/
+def LoopRoom (sa : SA) (i : Nat) : Prop :=
+  ∃ u, sa.eventList[i]? = some u ∧ u + sa.baseUsage < maxLoopStack
+
 /-- the conditions under which `find_match` records a loop candidate `(loopPosition, loopLength)`
 for the phrase starting at `position`: it lies later in the same track, `find_match_length` of the
 two positions returns `loopLength > 0` as its loop length, and the events `src(position,
 loopPosition]` never meet a depth-0 `LOOP_END`/`LOOP_BREAK` and end at depth 0 (`loop_valid`,
-`loop_depth == 0`) -/
+`loop_depth == 0`), and — repair of D18 — every event of the period has room on the stack
+for one more loop (`room`) -/
 structure LoopOK (song : Song) (m : SAMap) (bm : Match) : Prop where
   lt : bm.position < bm.loopPosition
   pos : 0 < bm.loopLength
@@ -384,6 +390,9 @@ structure LoopOK (song : Song) (m : SAMap) (bm : Match) : Prop where
     = .ok (len0, bm.loopLength)
   valid : ∀ src, song.track? bm.trackId = some src →
     scan ((src.drop (bm.position + 1)).take (bm.loopPosition - bm.position)) 0 = some 0
+  /-- repair of D18: every event of the period `[position, loopPosition)` — everything the new loop
+  encloses, the part after the break point included — has room on the stack for one more loop -/
+  room : ∀ i, bm.position ≤ i → i < bm.loopPosition → LoopRoom (getSA m bm.trackId) i
 
 theorem LoopOK.window {song : Song} {m : SAMap} {bm : Match} (h : LoopOK song m bm) {src : List Event}
     (hsrc : song.track? bm.trackId = some src) (hbz : BrkZero src) :
